@@ -3,13 +3,24 @@ from . import family, sess
 
 PROFILES = [
     dict(fns=["min"], nrules=4, nsets=1, rels=2, unary=2, ncmds=16, checks=0.3, sched_depth=1, depth=2, subsume=0.7),
-    dict(fns=[], nrules=4, nsets=2, rels=2, unary=2, ncmds=16, checks=0.3, sched_depth=1, growth=False, subsume=0.6, delete=0.3, pushpop=0.4),
+    dict(fns=[], nrules=4, nsets=2, rels=2, unary=2, ncmds=16, checks=0.3, sched_depth=2, growth=False, subsume=0.6, pushpop=0.4),
 ]
+# delete is not monotone: semi-naive evaluation legitimately differs from the naive
+# semantics of EggAbs once rows are removed, so the delete family runs with
+# seminaive = false (and never under saturate).
+DEL_PROFILES = [dict(fns=["max"], nrules=4, nsets=2, rels=2, unary=2, ncmds=16, checks=0.3, sched_depth=1, growth=False,
+                     subsume=0.4, delete=0.5)]
 CONFIGS = [(family.SEQ, None), (dict(threads=4, seminaive=True, enc="plain"), sess.PAR0)]
 
 
+NAIVE = dict(threads=1, seminaive=False, enc="plain")
+
+
 def check(tier):
-    return family.check_family(
-        "C13", tier, "c13", [("P4", "MC_EggAbs.cfg", 4, 5)], PROFILES, CONFIGS, (40, 500),
-        ["delete is generated on relation rows only (so no class loses its last finite term)",
+    return family.check_groups(
+        "C13", tier,
+        [dict(fam="c13", model_specs=[("P4", "MC_EggAbs.cfg", 4, 5)], profiles=PROFILES, configs=CONFIGS, nrand=(40, 500)),
+         dict(fam="c13del", model_specs=[], profiles=DEL_PROFILES, configs=[(NAIVE, None)], nrand=(40, 500))],
+        ["delete is generated on relation rows only (so no class loses its last finite term) and checked with seminaive=false, "
+         "because deletion is not monotone and semi-naive evaluation legitimately differs from the naive semantics afterwards",
          "extraction through subsumed rows is checked by C07"])
